@@ -139,6 +139,8 @@ type World struct {
 	rng      *rand.Rand
 	pidBase  int
 	pidStep  int
+	pidReal  map[int]int
+	pidBack  map[int]int
 	sessName map[string]string // model -> real
 	sessBack map[string]string // real -> model
 	salt     string
@@ -171,6 +173,7 @@ func NewWorld(seed int64) *World {
 	w := &World{rng: rand.New(rand.NewSource(seed))}
 	w.pidBase = 2 + w.rng.Intn(30000)
 	w.pidStep = 1 + w.rng.Intn(97)
+	w.pidReal, w.pidBack = map[int]int{}, map[int]int{}
 	w.salt = strconv.Itoa(w.rng.Intn(1 << 20))
 	w.sessName = map[string]string{"": "", "unset": "unset"}
 	w.sessBack = map[string]string{"": "", "unset": "unset"}
@@ -210,17 +213,48 @@ func (w *World) stamp() time.Time {
 	return t
 }
 
+// RealPid maps a model pid to a concrete one.  The concrete pids of one world
+// come from several regimes (small, around 2^15/2^16, up to pid_max = 4194304)
+// and deliberately include pairs where one decimal numeral is a prefix of the
+// other (1234 / 12345), so that truncating or string-comparing code shows.
 func (w *World) RealPid(p int) int {
 	if p <= 0 {
 		return p
 	}
-	return w.pidBase + p*w.pidStep
+	if r, ok := w.pidReal[p]; ok {
+		return r
+	}
+	for {
+		var r int
+		switch (w.pidStep + p) % 5 {
+		case 0:
+			r = 2 + w.rng.Intn(300)
+		case 1:
+			r = 32760 + w.rng.Intn(40)
+		case 2:
+			r = 65530 + w.rng.Intn(40)
+		case 3:
+			r = 4194304 - w.rng.Intn(1000)
+		default:
+			// a decimal extension of a pid already in use, if any
+			r = w.pidBase + p*w.pidStep
+			for _, q := range w.pidReal {
+				if q < 400000 {
+					r = q*10 + w.rng.Intn(10)
+					break
+				}
+			}
+		}
+		if _, used := w.pidBack[r]; !used && r > 0 {
+			w.pidReal[p], w.pidBack[r] = r, p
+			return r
+		}
+	}
 }
 
 func (w *World) ModelPid(rp int) int {
-	d := rp - w.pidBase
-	if d > 0 && d%w.pidStep == 0 {
-		return d / w.pidStep
+	if p, ok := w.pidBack[rp]; ok {
+		return p
 	}
 	return -rp - 1000000 // unknown pid: some value outside the model
 }
@@ -231,6 +265,17 @@ func (w *World) RealSess(s string) string {
 	}
 	for {
 		r := strconv.Itoa(1 + w.rng.Intn(4000000))
+		switch w.rng.Intn(6) {
+		case 0: // edge values of the kernel's 32-bit session counter
+			r = []string{"0", "1", "4294967294", "2147483648", "65536"}[w.rng.Intn(5)]
+		case 1: // a decimal extension of a session id already in use
+			for _, q := range w.sessName {
+				if len(q) > 0 && len(q) < 9 && q != "unset" {
+					r = q + strconv.Itoa(w.rng.Intn(10))
+					break
+				}
+			}
+		}
 		if _, used := w.sessBack[r]; !used {
 			w.sessName[s] = r
 			w.sessBack[r] = s
